@@ -27,17 +27,15 @@
 #endif
 #define LEN1 (LEN > 0 ? LEN : 1)
 
-/* Leaf operation of the oracle.  -DORACLE_SPEC: the 8-step shift/xor specification directly (decides
- * only for a single product per byte: XOR-sums of table-driven products against XOR-sums of
- * polynomial products are an XOR miter the SAT solver cannot close -- measured >300 s at len 2, k 2).
- * Default: the library's scalar gf_mul, which property C12 decides to be equal to spec_gf_mul for ALL
- * 2^16 operand pairs (lemma C12:H_MUL); the oracle passes (coefficient, data) in the opposite order
- * from the code under test. */
-#ifdef ORACLE_SPEC
-#define MUL(c, d) spec_gf_mul(c, d)
-#else
-#define MUL(c, d) gf_mul(c, d)
+/* ec_base.c is compiled with its scalar leaves gf_mul/gf_inv computed by the specification
+ * (spec/ec_base_leaf.h: assume-guarantee on C12, which decides gf_mul == spec_gf_mul for all 2^16
+ * operand pairs); the plan links no unit.  -DREAL_LEAF (plan links erasure_code/ec_base.c): the real
+ * table-driven gf_mul, decides only for one product per output byte (measured: len 2, k 2 >300 s).
+ * The oracle always uses spec_gf_mul, with (coefficient, data) operand order. */
+#ifndef REAL_LEAF
+#include "ec_base_leaf.h"
 #endif
+#define MUL(c, d) spec_gf_mul(c, d)
 
 struct inputs {
         uint8_t coef[ROWS * KK];
